@@ -217,7 +217,7 @@ impl Prop for C13 {
             let got = if eclass.starts_with("panic") { "panic".to_string() } else if bclass != eclass { eclass.split(':').next().unwrap().to_string() } else { "different-bindings".to_string() };
             let exp = bclass.split(':').next().unwrap().to_string();
             if culprits.is_empty() {
-                discs.push(Disc::new(format!("layout|combination|n={}|sep={}|exp={exp}|got={got}", c.at.len().min(3), sep_kind(&c.sep)), format!("base {}: no single boundary explains the difference ({bclass} vs {eclass})\n--- edited text ---\n{edited}", c.base_name)));
+                discs.push(Disc::new(format!("layout|combination|n={}|sep={}|exp={exp}|got={got}|base={}", c.at.len().min(3), sep_kind(&c.sep), if c.base_name.starts_with("feature:") { c.base_name.as_str() } else { "real" }), format!("base {}: no single boundary explains the difference ({bclass} vs {eclass})\n--- edited text ---\n{edited}", c.base_name)));
             }
             for i in culprits {
                 let (l, r) = (class_of(&toks[i]), class_of(&toks[i + 1]));
